@@ -546,6 +546,46 @@ def retPart : Option Ann → List Tok
 def methodToks (f : String) (ps : List RParam) (ret : Option Ann) : List Tok :=
   .name "def" :: .name f :: .lpar :: (joinComma (sigItems ps) ++ (.rpar :: (retPart ret ++ [.colon, .ellipsis])))
 
+/-! ### `get_type_info` for the field kinds whose rendering nests other renderings -/
+
+/-- the shape of a field as `get_type_info` dispatches on it: `AnyOf/OneOf/AllOf` with exactly two options the second
+    of which is a `NoneField` (`opt`), any other `AnyOf/OneOf/AllOf` (`union`), `Map` with item fields (`map`), and
+    everything else as the annotation it renders to (`leaf`: a module attribute's name, an enum class, the python type
+    of a scalar field, a typing generic, `dict` for a Map without items …) -/
+inductive FTy where
+  | leaf (a : Ann)
+  | opt (x : FTy)
+  | union (xs : List FTy)
+  | map (xs : List FTy)
+deriving Repr, Inhabited
+
+mutual
+/-- `get_type_info` / `_get_anyof_typing`: never a default inside an annotation (fix 08ea09e) -/
+def typeInfo : FTy → Ann
+  | .leaf a => a
+  | .opt x => .sub ["Optional"] [typeInfo x]
+  | .union xs => .sub ["Union"] (typeInfoL xs)
+  | .map xs => .sub ["dict"] (typeInfoL xs)
+termination_by structural t => t
+def typeInfoL : List FTy → List Ann
+  | [] => []
+  | x :: rest => typeInfo x :: typeInfoL rest
+termination_by structural ts => ts
+end
+
+mutual
+def FTy.wf : FTy → Bool
+  | .leaf a => a.wf
+  | .opt x => FTy.wf x
+  | .union xs => !xs.isEmpty && FTy.wfL xs
+  | .map xs => !xs.isEmpty && FTy.wfL xs
+termination_by structural t => t
+def FTy.wfL : List FTy → Bool
+  | [] => true
+  | x :: rest => FTy.wf x && FTy.wfL rest
+termination_by structural ts => ts
+end
+
 /-! ### legal `inspect.Signature` parameter lists -/
 
 def optWf : Option Ann → Bool
